@@ -46,6 +46,7 @@ type mockDriver struct {
 	seed     uint64
 	faultPct int
 	handler  report.Handler
+	stall    time.Duration // latency of the next call (set by a scenario, consumed once)
 }
 
 func newMockDriver(seed uint64, faultPct int) *mockDriver {
@@ -122,6 +123,12 @@ func fmtReports(rs []report.USAReport) string {
 func (d *mockDriver) call(op, kind string, seid, id uint64, withReports bool) ([]report.USAReport, error) {
 	d.mu.Lock()
 	defer d.mu.Unlock()
+	if d.stall > 0 {
+		// data-plane call latency, once: the event loop is held inside this call
+		st := d.stall
+		d.stall = 0
+		time.Sleep(st)
+	}
 	h := d.keyed(op, kind, seid, id)
 	k := dpKey{seid, kind, id}
 	ok := true
@@ -326,7 +333,12 @@ func newCtlEnv(c *ctx, netn int, peerIDs []int) *ctlEnv {
 }
 
 func (e *ctlEnv) startServer(maxRetrans uint8, txSeq uint32, seed uint64, faultPct int) {
-	cfg := &factory.Config{Pfcp: &factory.Pfcp{Addr: e.ip(8), NodeID: e.ip(8), RetransTimeout: time.Hour, MaxRetrans: maxRetrans}}
+	e.startServerT(maxRetrans, txSeq, seed, faultPct, time.Hour)
+}
+
+// startServerT: with the retransmission timeout given (the lock-step stream uses one hour: timers are injected events there)
+func (e *ctlEnv) startServerT(maxRetrans uint8, txSeq uint32, seed uint64, faultPct int, rto time.Duration) {
+	cfg := &factory.Config{Pfcp: &factory.Pfcp{Addr: e.ip(8), NodeID: e.ip(8), RetransTimeout: rto, MaxRetrans: maxRetrans}}
 	e.drv = newMockDriver(seed, faultPct)
 	e.srv = pfcp.NewPfcpServer(cfg, e.drv)
 	e.drv.HandleReport(e.srv)
